@@ -97,6 +97,10 @@ func genC06(t *rapid.T) c06Case {
 	root := zooRoot(c.Variant)
 	c.Steps = genZPath(t, root, 4, 5)
 	for i := range c.Steps {
+		// an index that is a variable of kind uintptr (a number like any other)
+		if st := &c.Steps[i]; st.Kind == "index" && st.Var == "" && st.I >= 0 && st.I <= 4 && rapid.IntRange(0, 5).Draw(t, "uintptrIndex") == 0 {
+			st.Var = fmt.Sprintf("uptr%d", st.I)
+		}
 		// (.a.absent, with the context as the base, is left open: a field node, not a chain)
 		if c.Base == "dot" && c.Steps[i].Name == "absentKey" && c.Steps[i].Spell == "dot" {
 			c.Steps[i].Spell = "bracket"
@@ -154,6 +158,9 @@ func zRun(c c06Case, tpl string, want reflect.Value) jetrun.Outcome {
 	vars := jet.VarMap{}
 	vars.Set("root", root)
 	vars.Set("nokeys", map[string]int{})
+	for i := 0; i <= 4; i++ {
+		vars.Set(fmt.Sprintf("uptr%d", i), uintptr(i))
+	}
 	for k, v := range zIfaceKeys {
 		vars.Set(k, v)
 	}
